@@ -646,6 +646,7 @@ def _check_near(ctx, step, M, a, b):
     ctx.count("J2_pairs:%s:j=%d" % (t, j))
     if a["built"] != M.key() or b["built"] != M.key():
         ctx.count("J2_pairs_built_under_other_config")
+    ctx.count("state:%s/builtA=%s/builtB=%s/check=%d/k=%d/moved=%d" % (t, a["built"][1], b["built"][1], j, kk, min(a.get("moved", 0), 2)))
     outs = []
     for name, r, want in res:
         ctx.count("J2_assertions")
